@@ -25,6 +25,9 @@
      QueryGuard  c5e7fe2 (D19)  ProvesStatement refuses queried factors whose x4 would wrap
      HiddenCheck 16f49b5 (D6)   ProofD.validate: every carried range proof sits on a hidden index
      OverrideM                  ChallengeContribution sets MResponse := AResponses[index]
+     FreshStructs 140529a (D23) the verifier extracts the structures of the carried range proofs at every
+                                verification (FALSE: ProofD.cachedRangeStructures, the memo of a ProofD object
+                                that was verified before, is used instead and never invalidated)
 
    Theorems (TLC invariants over a state machine that walks the box):
      Sound    (C12)  ExtractOK(d) /\ Established(d, m)  =>  Holds(Proven(d), m) and, for every query q
@@ -50,7 +53,7 @@ EXTENDS Integers, Sequences, FiniteSets, TLC
 CONSTANTS MMax, KOff, KMax, AMax,      \* box: m in 0..MMax, K and bounds in -KOff..KMax, small factors 0..AMax
           W,                           \* toy word size
           TableLimit,                  \* limit of the three-squares table of the model
-          SignAware, RefuseBig, QueryGuard, HiddenCheck, OverrideM,
+          SignAware, RefuseBig, QueryGuard, HiddenCheck, OverrideM, FreshStructs,
           LayoutIds, AttFactors, AttSlack, FullOps   \* part (b): which configurations are explored
 
 (* ------------------------------------------------------------------ machine words *)
@@ -229,15 +232,35 @@ Accept(h, cs) == /\ Validated(h, cs) /\ ~Panics(h, cs)
                  /\ LET v == Visit(h, cs) IN [k \in 1..Len(v) |-> Recon(v[k], h)] = h.hashed
 Verdict(h, cs) == IF Panics(h, cs) THEN "panic" ELSE IF Accept(h, cs) THEN "accept" ELSE "reject"
 
+\* A ProofD object that verified the honest proof of credential 1 before (st.re # 0: afterwards altered in place, or
+\* another document decoded into the same variable) still holds the structures extracted then: one per honest range proof.
+\* ChallengeContribution walks the memo, not the carried proofs: `for i, s := range cachedRangeStructures[index]`
+\* verifies RangeProofs[index][i] with s.  (Modelled for the single honest range proof at the target index.)
+UseMemo == ~FreshStructs /\ st.re # 0
+AtTarget(cs) == LET T(e) == e.at = Lay.t IN SelectSeq(cs, T)
+PanicsM(h, cs) == (HiddenCheck => \A e \in Rng(cs) : e.at \in h.hidden) /\ Len(AtTarget(cs)) = 0      \* RangeProofs[t][0] on a missing list
+VisitM(h, cs) == IF Len(AtTarget(cs)) = 0 THEN <<>> ELSE <<AtTarget(cs)[1]>>
+AcceptM(h, cs) == /\ HiddenCheck => \A e \in Rng(cs) : e.at \in h.hidden
+                  /\ Len(AtTarget(cs)) > 0
+                  /\ LET e == AtTarget(cs)[1]  s == Src(e.src) IN
+                       /\ e.alt.f \notin {"big", "nC", "Cs", "ds", "vs", "v5", "nAll"}
+                       /\ ChOf(s.inst) = ChOf(h.inst) /\ s.idx = e.at
+                       /\ OverrideM => (s.rnd = "attr" /\ s.inst = h.inst /\ s.mv = Val(h.cred, e.at))
+                       /\ h.hashed = <<SrcId(e.src)>>
+AcceptX(h, cs) == IF UseMemo THEN AcceptM(h, cs) ELSE Accept(h, cs)
+VisitX(h, cs) == IF UseMemo THEN VisitM(h, cs) ELSE Visit(h, cs)
+VerdictX(h, cs) == IF UseMemo THEN (IF PanicsM(h, cs) THEN "panic" ELSE IF AcceptM(h, cs) THEN "accept" ELSE "reject") ELSE Verdict(h, cs)
+
 QSmall == { [sign |-> s, factor |-> f, bound |-> b] : s \in Signs, f \in 1..3, b \in 0..(3 * MMax + 2) }
 EntrySound(h, cs, e) ==
    LET s == Src(e.src)  d == DOf(e)  v == Val(h.cred, e.at)  p == Proven(d) IN
    /\ e.at \in h.hidden
-   /\ e \in Rng(Visit(h, cs))
+   /\ e \in Rng(VisitX(h, cs))
+   /\ UseMemo => DOf(e) = s.d0                   \* the descriptor that is carried is the one that was checked
    /\ s.cred = h.cred /\ s.idx = e.at
    /\ Holds(p.sign, p.factor, p.bound, v)
    /\ \A q \in QSmall : Proves(d, q.sign, q.factor, q.bound) => Holds(q.sign, q.factor, q.bound, v)
-HostSound(h, cs) == Accept(h, cs) => \A e \in Rng(cs) : EntrySound(h, cs, e)
+HostSound(h, cs) == AcceptX(h, cs) => \A e \in Rng(cs) : EntrySound(h, cs, e)
 
 \* honest configurations
 StmtsFor(m) == { [sign |-> s, factor |-> f, bound |-> f * m - s * k, n |-> n] :
@@ -254,7 +277,7 @@ InitA == \E l \in LayoutIds, m \in M, two \in {0, 1, 2} : \E S \in TrueStmts(m) 
             /\ two = 2 => LayoutTab[l].u # 0
             /\ two # 0 => (l = Min(LayoutIds) /\ S.bound = S.factor * m)
             /\ (l # Min(LayoutIds) /\ ~FullOps) => S.bound = S.factor * m      \* other layouts: boundary statements only
-            /\ st = [ph |-> "att", step |-> 0, L |-> l, m |-> m, m2 |-> m, S |-> S, S2 |-> S, two |-> two, host |-> "pd1",
+            /\ st = [ph |-> "att", step |-> 0, L |-> l, m |-> m, m2 |-> m, S |-> S, S2 |-> S, two |-> two, host |-> "pd1", re |-> 0,
                      cs |-> <<>>, cs2 |-> <<>>, op |-> "init"]
 
 Fin(host, cs, cs2, op) == st' = [st EXCEPT !.step = 1, !.host = host, !.cs = cs, !.cs2 = cs2, !.op = op]
@@ -280,6 +303,16 @@ Single ==
       \/ ((Main /\ AtBoundary) \/ FullOps) /\ \E a \in Alts(StmtDesc(st.S)) : Fin("pd1", <<[at |-> Lay.t, src |-> "R1", alt |-> a]>>, <<>>, "alter")
       \/ ((Main /\ AtBoundary) \/ FullOps) /\ \E a \in Alts(StmtDesc(st.S)) :
             a.f \in {"K", "Sign", "A"} /\ Fin("pd1", <<E(Lay.t, "R1"), [at |-> Lay.t, src |-> "R1", alt |-> a]>>, <<>>, "alterdup")
+\* the verifier's ProofD object has verified the honest proof before (1: then altered in place, 2: another document decoded into it)
+Reverify ==
+   /\ st.two = 0 /\ ((Main /\ AtBoundary /\ st.S.factor = 1) \/ FullOps)
+   /\ \E re \in {1, 2} :
+        LET F(cs, op) == st' = [st EXCEPT !.step = 1, !.re = re, !.cs = cs, !.op = op] IN
+        \/ F(Honest1, "reverify-honest")
+        \/ \E a \in Alts(StmtDesc(st.S)) : (FullOps \/ a.f \notin {"Cs", "ds", "vs", "v5", "big"})
+                                             /\ F(<<[at |-> Lay.t, src |-> "R1", alt |-> a]>>, "reverify-alter")
+        \/ \E a \in Alts(StmtDesc(st.S)) : a.f = "K" /\ F(<<E(Lay.t, "R1"), [at |-> Lay.t, src |-> "R1", alt |-> a]>>, "reverify-add")
+        \/ \E j \in Lay.h \ {Lay.t} : F(<<E(Lay.t, "R1"), E(j, "R1")>>, "reverify-addto")
 Double ==
    /\ st.two # 0
    /\ LET a == Honest1[1]  b == Honest1[2] IN
@@ -308,13 +341,13 @@ WithOther ==
               \/ F("list", <<>>, <<E(t, "R2"), E(t, "R1")>>, "list-move")
               \/ F("list", <<E(t, "R1"), E(t, "R2")>>, <<>>, "list-move")
               \/ F("list", <<E(t, "R1")>>, <<E(t, "R1")>>, "list-copy")
-NextA == st.ph = "att" /\ st.step = 0 /\ (Single \/ Double \/ WithOther)
+NextA == st.ph = "att" /\ st.step = 0 /\ (Single \/ Double \/ WithOther \/ Reverify)
 SpecA == InitA /\ [][NextA]_st
 
 FinalVerdict == IF st.host = "list"
                 THEN LET v1 == Verdict(HostRec("pd1"), st.cs)  v2 == Verdict(HostRec("pd2"), st.cs2)
                      IN IF v1 = "panic" \/ (v1 = "accept" /\ v2 = "panic") THEN "panic" ELSE IF v1 = "accept" /\ v2 = "accept" THEN "accept" ELSE "reject"
-                ELSE Verdict(HostRec(st.host), st.cs)
+                ELSE VerdictX(HostRec(st.host), st.cs)
 AttachSound == (st.ph = "att" /\ st.step = 1) =>
                   IF st.host = "list"
                   THEN (Accept(HostRec("pd1"), st.cs) /\ Accept(HostRec("pd2"), st.cs2)) =>
@@ -324,5 +357,5 @@ AttachSound == (st.ph = "att" /\ st.step = 1) =>
 NoPanic == (st.ph = "att" /\ st.step = 1) => FinalVerdict # "panic"
 \* vacuity probes (expected to be violated)
 NothingAccepted == (st.ph = "att" /\ st.step = 1) => FinalVerdict # "accept"
-OnlyHonestAccepted == (st.ph = "att" /\ st.step = 1 /\ FinalVerdict = "accept") => st.op \in {"honest", "honest2", "list-honest"}
+OnlyHonestAccepted == (st.ph = "att" /\ st.step = 1 /\ FinalVerdict = "accept") => st.op \in {"honest", "honest2", "list-honest", "reverify-honest"}
 =============================================================================
